@@ -1736,6 +1736,16 @@ func oracleResumedPrev(o *e2eOutcome, v vfn) {
 			}
 		}
 	}
+	listed := map[int]map[key]string{} // generation -> (name, hash) -> predecessor in that generation's first listing of partials
+	for _, q := range o.reqs {
+		if q.Class != "partials" || q.Err != "" || listed[q.Gen] != nil {
+			continue
+		}
+		listed[q.Gen] = map[key]string{}
+		for _, p := range q.Parts {
+			listed[q.Gen][key{p.Name, p.Hash}] = p.Prev
+		}
+	}
 	for _, e := range o.events {
 		if e.Kind != "q_push" || e.S != "recovered" || e.Gen < 2 || e.A <= 0 {
 			continue
@@ -1744,7 +1754,13 @@ func oracleResumedPrev(o *e2eOutcome, v vfn) {
 			if k.name != e.Name {
 				continue
 			}
-			before, ok := lastPrev[e.Gen-1][k]
+			if _, ok := lastPrev[e.Gen-1][k]; !ok {
+				continue
+			}
+			// the announcement to keep is the one the RECEIVER recorded (its listing is the
+			// only place the restarted sender can learn it from): an announcement made in a
+			// request that never reached the receiver binds nobody
+			before, ok := listed[e.Gen][k]
 			if !ok || before == "" || before == now {
 				continue
 			}
